@@ -264,6 +264,14 @@ fn check(case: &Case, run: &Run) -> Vec<Finding> {
                     json!({}),
                 ),
             }
+            // whoever is routed - freshly authenticated or admitted by a cookie - passes the filters first
+            if (!f.select_calls.is_empty() || granted.contains(&"Transfer")) && f.filter_calls.is_empty() {
+                bad(
+                    &format!("routing-identity/filter/not-consulted/{source}"),
+                    format!("a player vouched for by the {source} was routed without the filters having been asked"),
+                    json!({"select_calls": f.select_calls.len(), "granted": granted}),
+                );
+            }
             for c in f.filter_calls.iter().chain(f.select_calls.iter()) {
                 let (Call::Filter { user, ctx, .. } | Call::Select { user, ctx, .. }) = &c.call else { continue };
                 // ... and for the host the player connected with (the handshake's, not one a cookie names)
